@@ -17,7 +17,7 @@ dst = VERIF / "refactors" / name
 dst.mkdir(parents=True, exist_ok=True)
 shutil.copy(src / "patch.diff", dst / "patch.diff")
 shutil.copy(src / "demo.py", dst / "demo.py")
-meta["origin"] = "independent sub-agent given only the property text and a scratch worktree of /repo (round 6: focus list of functions, at least six rewrites)"
+meta["origin"] = "independent sub-agent given only the property text and a scratch worktree of /repo (%s)" % ("round 7: many small edits - at least twenty-five - across every anchored file" if (a.name or "").startswith("r7") else "round 6: focus list of functions, at least six rewrites")
 meta["confirmed_in_scratch_worktree"] = {"ran": "tools/confirm_refactor.sh %s" % a.wt, "digest_with_change": conf["digest_with_change"],
                                          "digest_without_change": conf["digest_without_change"],
                                          "stable_tests_passing_with_change": "%d/42" % conf["stable_tests_passing_with_change"]}
